@@ -229,7 +229,7 @@ func runC07(cfg *vh.Config) error {
 				res.Fail(vh.Failure{Case: caseNo, Stream: "iso", Sig: "C07 documented language not accepted: " + gap, Clause: "every package within the documented language is accepted", Input: in, Got: o.ErrText})
 			}
 			checkPositions(res, caseNo, "iso", "iso conversion error", o.Pos, content, mainFile, in)
-			if pi%3 == int(cfg.Seed%3) || cfg.Tier == "thorough" {
+			if pi%3 == int(cfg.Seed%3) {
 				convPos(caseNo, "iso", in, content[mainFile], fmt.Sprintf("[LObject %s false [%s]]", pathCoq(declPath(0, "object")), lpropCoq(p, declPath(0, "object"), 0)), o.Pos)
 			}
 		case "VOk":
@@ -483,7 +483,7 @@ func runC07(cfg *vh.Config) error {
 
 	// ---- stream 3: malformed inputs (random bytes, byte flips, token mutations) through Compile and LintFile
 	rMut := cfg.R.Fork("mut")
-	nMut := cfg.Scale(350, 12000)
+	nMut := cfg.Scale(350, 8000)
 	if len(corpus) == 0 {
 		// nothing compiled (every case above failed and was reported): mutate a fixed seed so the run completes
 		corpus = append(corpus, map[string]string{mainFile: "package foo.v1\n\nobject Foo {\n  field f string\n}\n"})
@@ -654,7 +654,7 @@ func runC07(cfg *vh.Config) error {
 				}
 			}
 		}
-		nMutFront := cfg.Scale(110, 3000)
+		nMutFront := cfg.Scale(110, 1500)
 		for i := 0; i < nMut && i < nMutFront; i++ {
 			add(mutContents[i][mainFile], "malformed: "+mutHow[i])
 		}
@@ -670,6 +670,13 @@ func runC07(cfg *vh.Config) error {
 		et, er := runEntities(cfg, res, &caseNo)
 		ff.Terms = append(ff.Terms, et...)
 		frontRecs = append(frontRecs, er...)
+	}
+	// ---- stream 8: conversion-error positions in the non-virtual contexts (service request / response properties, topic
+	// message fields) against the model of child / GetPos alone
+	{
+		ct, cr := runChildPos(cfg, res, &caseNo)
+		ff.Terms = append(ff.Terms, ct...)
+		frontRecs = append(frontRecs, cr...)
 	}
 	// ---- stream 6: package loading (import graphs with missing packages and cycles) against model/CmpbPackage.v
 	{
